@@ -63,6 +63,12 @@
 (* Reuse (C06): bring an impl sequence (one set of patterns per node) and  *)
 (* call RunProgram; add branches for the new target to TypeNames / RowVal  *)
 (* if its constants are to be matched by value.                            *)
+(* C06 (targets "stablehlo", "xla_client"; see FAPrinterHLO.tla) added,    *)
+(* all guarded by target \in HLOTargets: TypeNames / WildKinds branches,   *)
+(* RowValH (ScalarLike / ConstantLike rows, named constants matched by     *)
+(* NAME), NodeValH, ConstDenotesH (the text's number converted to the      *)
+(* node's element format), and Verdict (the body of RunProgram as an       *)
+(* operator of its own, so that a target may post-process denotations).    *)
 (***************************************************************************)
 EXTENDS IEEE, FiniteSets, TLC
 
@@ -110,7 +116,10 @@ NarrowerT(t) == CASE t = "float32" -> "float16" [] t = "float64" -> "float32" []
                   [] t = "integer16" -> "integer8" [] t = "integer32" -> "integer16" [] t = "integer64" -> "integer32"
                   [] OTHER -> "none"
 
+HLOTargets == {"stablehlo", "xla_client"}
+HasPrefix(s, n, p) == Len(s) >= n /\ SubSeq(s, 1, n) = p
 \* the names a target language has for an IR type ({} = the language has no such type / not specified)
+RECURSIVE TypeNames(_, _)
 TypeNames(target, t) ==
   CASE target = "python" ->
          (CASE t = "float" -> {"float"} [] t = "complex" -> {"complex"} [] t = "integer" -> {"int"}
@@ -138,6 +147,16 @@ TypeNames(target, t) ==
             [] t \in {"integer64", "integer"} -> {"int64_t", "std::int64_t", "long", "long long"}
             [] t = "boolean" -> {"bool"}
             [] OTHER -> {})
+    \* TableGen pattern: the source pattern constrains arguments by element-type class only
+    [] target = "stablehlo" ->
+         (IF t \in ComplexTypes THEN {"ComplexElementType"}
+          ELSE IF t \in FloatTypes \cup IntTypes \cup {"boolean"} THEN {"NonComplexElementType"} ELSE {})
+    \* XLA builder: every value of the graph is an XlaOp; a node of the alternative (compile-time, C++) constant
+    \* context has type "alt:<T>": the C++ name of T, or T itself when T is a template type parameter
+    [] target = "xla_client" ->
+         (IF HasPrefix(t, 4, "alt:") THEN
+            (LET u == SubSeq(t, 5, Len(t)) IN IF TypeNames("cpp", u) # {} THEN TypeNames("cpp", u) ELSE {u})
+          ELSE IF t \in FloatTypes \cup ComplexTypes \cup IntTypes \cup {"boolean"} THEN {"XlaOp", "xla::XlaOp"} ELSE {})
     [] OTHER -> {}
 
 (*************************** the Implements table **************************)
@@ -162,6 +181,8 @@ WildKinds(target) ==
   CASE target = "python" -> {"sign", "round", "list", "item"}
     [] target = "numpy" -> {"round", "list", "item"}
     [] target = "cpp" -> {"sign", "round", "remainder", "list", "item"}
+    [] target = "stablehlo" -> {"list", "item"}
+    [] target = "xla_client" -> {"round", "log2", "log10", "list", "item"}
     [] OTHER -> {}
 
 \* Patterns that realise a node of kind k, static type t, whose operands have types ots, in target.
@@ -328,11 +349,47 @@ Prefix(s, n) == IF Len(s) < n THEN "" ELSE SubSeq(s, 1, n)
 
 \* The value a row denotes when it is a CONSTANT EXPRESSION of the language (literal, signed literal,
 \* the language's named constants, a typed constructor applied to one).  From the languages' definitions.
-RECURSIVE RowVal(_, _, _)
+\* C06: named constants of the HLO targets are matched by NAME (their value depends on the element type of
+\* the operand they are attached to); infinities and NaN are the same in every format and stay numbers
+IsNamedCls(c) == HasPrefix(c, 6, "named:")
+NamedVal(name) == CASE name = "posinf" -> FVal("float64", PosInf(F64))
+                    [] name = "neginf" -> FVal("float64", NegInf(F64))
+                    [] name = "nan" -> FVal("float64", QNaN(F64))
+                    [] OTHER -> [ok |-> TRUE, cls |-> "named:" \o name, fmt |-> "", bits |-> <<>>, z |-> ZZero]
+RECURSIVE FindFrom(_, _, _)
+FindFrom(s, p, i) == IF i + Len(p) - 1 > Len(s) THEN 0 ELSE IF SubSeq(s, i, i + Len(p) - 1) = p THEN i ELSE FindFrom(s, p, i + 1)
+ScalarLikeOps == {"call:ScalarLike", "call:xla::ScalarLike"}
+
+RECURSIVE RowVal(_, _, _), RowValH(_, _, _)
+\* constant expressions of the HLO targets: `ScalarLike(like, e)` / `(StableHLO_ConstantLike<"e"> like)` (rows in
+\* normal form: child = e, attachment in v) have the value of the C++ constant expression e;
+\* `(StableHLO_ConstantLikeXxx like)`, M_PI and std::numeric_limits<T>::f() are named constants
+RowValH(target, rows, i) ==
+  LET r == rows[i]
+      o == r.o
+  IN  IF (o = "constlike" \/ o \in ScalarLikeOps) /\ Len(r.a) = 1 THEN RowValH(target, rows, r.a[1])
+      ELSE IF HasPrefix(o, 10, "constlike:") /\ Len(r.a) = 0 THEN
+        (LET vr == SubSeq(o, 11, Len(o))
+             nm == CASE vr = "MaxFiniteValue" -> "largest" [] vr = "SmallestNormalizedValue" -> "smallest"
+                     [] vr = "PosInfValue" -> "posinf" [] vr = "NegInfValue" -> "neginf" [] OTHER -> ""
+         IN  IF nm = "" THEN NoVal ELSE NamedVal(nm))
+      ELSE IF o = "name:M_PI" THEN NamedVal("pi")
+      ELSE IF HasPrefix(o, 25, "call:std::numeric_limits<") /\ Len(r.a) = 0 THEN
+        (LET q == FindFrom(o, ">::", 26)
+             fn == IF q = 0 THEN "" ELSE SubSeq(o, q + 3, Len(o))
+             what == CASE fn = "max" -> "largest" [] fn = "min" -> "smallest" [] fn = "epsilon" -> "eps"
+                       [] fn = "denorm_min" -> "smallest_subnormal" [] fn = "infinity" -> "posinf"
+                       [] fn = "quiet_NaN" -> "nan" [] OTHER -> ""
+         IN  IF what = "" THEN NoVal ELSE NamedVal(what))
+      ELSE IF o = "un:-" THEN (LET x == RowValH(target, rows, r.a[1]) IN IF ~x.ok \/ IsNamedCls(x.cls) THEN NoVal ELSE NegVal(x))
+      ELSE IF o = "un:+" THEN RowValH(target, rows, r.a[1])
+      ELSE RowVal("cpp", rows, i)
+
 RowVal(target, rows, i) ==
   LET r == rows[i]
       o == r.o
-  IN  IF o = "lit" THEN
+  IN  IF target \in HLOTargets THEN RowValH(target, rows, i)
+      ELSE IF o = "lit" THEN
         (IF r.s = "bool" THEN BVal(ZMk(0, LitDig(r)))
          ELSE IF r.s \in IntLitTypes THEN IVal(ZMk(0, LitDig(r)))
          ELSE IF target = "cpp" THEN (IF CppLitFmt(r.s) = "" THEN NoVal ELSE FVal(CppLitFmt(r.s), LitBits(r)))
@@ -389,6 +446,23 @@ RowVal(target, rows, i) ==
 
 \* The value a constant node denotes in a target: the stored Python object in Python; the stored value
 \* converted to the node's static type in the typed targets.
+\* C06: the element type of a node of the HLO targets ("alt:<T>" = type T of the alternative constant context)
+ElemT(t) == IF HasPrefix(t, 4, "alt:") THEN SubSeq(t, 5, Len(t)) ELSE t
+NodeValH(n) ==
+  LET v == n.v
+      raw == CASE v.c = "float" -> FVal(v.fmt, v.bits)
+               [] v.c = "int" -> IVal(ZMk(v.neg, v.mag))
+               [] v.c = "bool" -> BVal(ZMk(0, v.mag))
+               [] OTHER -> NoVal
+      et == ElemT(n.t)
+      g == FmtNameOf(et)
+  IN  IF v.c = "named" THEN NamedVal(v.name)
+      ELSE IF ~raw.ok THEN NoVal
+      ELSE IF g # "none" THEN (IF raw.cls \in {"float", "int"} THEN ToFmt(raw, g) ELSE NoVal)
+      ELSE IF IsIntT(et) THEN (IF raw.cls \in {"int", "bool"} THEN IVal(raw.z) ELSE IF raw.cls = "float" THEN FloatToInt(raw) ELSE NoVal)
+      ELSE IF et = "boolean" THEN (IF raw.cls = "bool" THEN raw ELSE NoVal)
+      ELSE raw          \* a template type parameter: the stored number itself
+
 NodeVal(target, n) ==
   LET v == n.v
       raw == CASE v.c = "float" -> FVal(v.fmt, v.bits)
@@ -396,7 +470,8 @@ NodeVal(target, n) ==
                [] v.c = "bool" -> BVal(ZMk(0, v.mag))
                [] OTHER -> NoVal
       g == FmtNameOf(n.t)
-  IN  IF v.c = "named" THEN
+  IN  IF target \in HLOTargets THEN NodeValH(n)
+      ELSE IF v.c = "named" THEN
         (IF v.name \in KnownNames /\ IsFloatT(n.t) THEN FVal(g, NamedBits(FmtOf(g), v.name)) ELSE NoVal)
       ELSE IF ~raw.ok THEN NoVal
       ELSE IF target = "python" THEN (IF raw.cls = "float" THEN ToFmt(raw, "float64") ELSE raw)
@@ -425,13 +500,22 @@ SameNumber(x, y) ==
 \*   python: same class and same value (the object itself is printed)
 \*   numpy : same class; floats in the node's format, bit for bit
 \*   cpp   : the same number (the type the text computes in is the typing clauses' business)
+\*   stablehlo / xla_client: a named constant by name; otherwise the text's number, converted to the element
+\*           format of the node (ConstantLike / ScalarLike convert to the element type of their operand), is the
+\*           node's value
+ConstDenotesH(nv, rv) ==
+  IF IsNamedCls(nv.cls) \/ IsNamedCls(rv.cls) THEN nv.cls = rv.cls
+  ELSE IF nv.cls = "float" THEN rv.cls \in {"float", "int"} /\ SameFloat(FmtOf(nv.fmt), nv.bits, ToFmt(rv, nv.fmt).bits)
+  ELSE IF nv.cls = "bool" THEN rv.cls = "bool" /\ nv.z = rv.z
+  ELSE rv.cls # "bool" /\ SameNumber(nv, rv)
 ConstDenotes(target, nv, rv) ==
   /\ nv.ok /\ rv.ok
-  /\ IF target = "cpp" THEN (nv.cls = "bool") = (rv.cls = "bool") /\ SameNumber(nv, rv)
+  /\ IF target \in HLOTargets THEN ConstDenotesH(nv, rv)
+     ELSE IF target = "cpp" THEN (nv.cls = "bool") = (rv.cls = "bool") /\ SameNumber(nv, rv)
      ELSE /\ nv.cls = rv.cls
           /\ IF nv.cls = "float" THEN nv.fmt = rv.fmt /\ SameFloat(FmtOf(nv.fmt), nv.bits, rv.bits) ELSE nv.z = rv.z
 \* same number, wrong class / format
-ConstNumberOnly(nv, rv) == nv.ok /\ rv.ok /\ SameNumber(nv, rv)
+ConstNumberOnly(nv, rv) == nv.ok /\ rv.ok /\ ~IsNamedCls(nv.cls) /\ ~IsNamedCls(rv.cls) /\ SameNumber(nv, rv)
 
 (*************************** decimal literals ******************************)
 RECURSIVE NPow10(_)
@@ -635,9 +719,11 @@ SingleAssignmentFails(prog) ==
 
 \* Verdict of the machine on a whole program: [fails |-> set of <<clause, row, what>>, ds |-> the
 \* denotation of every row].  root: the node the program must return.
-RunProgram(target, nodes, root, impl, prog) ==
-  LET cx == Context(target, nodes, impl, prog)
-      st == DenAll(cx, [ds |-> <<>>, pf |-> <<>>], 1)
+\* (Verdict: the statements judged over the denotations st of all rows)
+Verdict(cx, st, root) ==
+  LET target == cx.target
+      nodes == cx.nodes
+      prog == cx.prog
       ds == st.ds
       stmtFails(j) ==
         LET s == prog.stmts[j]
@@ -665,6 +751,9 @@ RunProgram(target, nodes, root, impl, prog) ==
        fails |-> SingleAssignmentFails(prog)
                  \cup UNION {stmtFails(j) : j \in 1..Len(prog.stmts)}
                  \cup (IF nret # 1 \/ prog.stmts[Len(prog.stmts)].op # "return" THEN {Fail("return_root", 0, "no single final return")} ELSE {})]
+RunProgram(target, nodes, root, impl, prog) ==
+  LET cx == Context(target, nodes, impl, prog)
+  IN  Verdict(cx, DenAll(cx, [ds |-> <<>>, pf |-> <<>>], 1), root)
 
 \* impl table of a graph for one of the three executable targets: wild-carded kinds use the
 \* pattern handed in (the package's own template, parsed), everything else the table above
